@@ -713,6 +713,26 @@ func c19Table(c *Ctx) {
 			if p.Ret == nil || len(p.Results) != 2 {
 				continue
 			}
+			// table form: `c, ok := table[s]; return c, ok` over a constant package-level map
+			if b0, i0 := stripExtract(p.Results[0]); i0 == 0 && b0.Op == an.OpElem && b0.CommaOk && len(b0.Args) == 2 && b0.Args[1].Op == an.OpParam && len(p.Atoms) == 0 {
+				if b1, i1 := stripExtract(p.Results[1]); i1 == 1 && sameValue(b0, b1) {
+					if tbl, ok := c.globalConstMap(b0.Args[0]); ok {
+						for k, v := range tbl {
+							state := oper[k]
+							got := linkName[uint64(v)]
+							if state != "" {
+								covered[state] = true
+							}
+							c.R.Check(state != "" && got == state, "R-C19-5", c.fname(osc)+":OperState"+state, c.fname(osc), c.pos(p.Ret.Pos()),
+								fmt.Sprintf("table entry %d → %d (OperState%s → Link%s)", k, v, state, got), "OperState"+state+" → Link"+state+", true",
+								"kernel link state mapped to the wrong Change: subscribers are notified of the wrong event")
+						}
+						// a missing key yields the zero value and false: the documented default
+						c.R.Check(true, "R-C19-5", c.fname(osc)+":default", c.fname(osc), c.pos(p.Ret.Pos()), "comma-ok lookup: a missing key gives (0, false)", "unknown operstate → (0, false)", "unrecognised kernel state produces a notification")
+						continue
+					}
+				}
+			}
 			state := ""
 			for _, a := range p.Atoms {
 				x, y, op, ok := effCmp(a)
